@@ -212,6 +212,19 @@ Definition spec_rel (a : astate) (o : op) (a' : astate) (r : result) : Prop :=
     else r = RErr EBadSeq /\ unchanged a a'
   | OAppendBad i =>
     unchanged a a' /\ r = RErr (if alive a i then (if shapeless a i then EBadSeq else EValue) else EBadSeq)
+  | OOpRefused i oj =>
+    (* the dtype refusal of an in-place operator comes after the shape check and after next() on an empty
+       target, and before anything is written *)
+    unchanged a a' /\
+    r = RErr (if alive a i && match oj with None => true | Some j => alive a j end then
+                if match oj with
+                   | None => false
+                   | Some j => negb (length (conts a i) =? length (conts a j)) ||
+                               negb (rows_total (conts a i) =? rows_total (conts a j))
+                   end
+                then EValue
+                else match conts a i with [] => EStopIteration | _ => EType end
+              else EBadSeq)
   | OShrink i =>
     unchanged a a' /\
     r = (if alive a i then match a_pend (obj a i) with None => ROk | Some _ => RErr EBadSeq end else RErr EBadSeq)
@@ -1283,6 +1296,32 @@ Proof.
     split; [rewrite A; exact Hr|exact B].
 Qed.
 
+Lemma sim_op_refused st i oj : wf st ->
+  spec_rel (absS st) (OOpRefused i oj) (absS (fst (step st (OOpRefused i oj)))) (snd (step st (OOpRefused i oj))).
+Proof.
+  intros R. pose proof (ok_wf st R) as W. cbn [spec_rel].
+  destruct (op_refused_nothing st i oj) as (E & _). rewrite E. split; [apply abs_unchanged_refl|].
+  assert (RT : forall k, k < length (seqs st) -> rows_total (C st k) = sum (lens (getseq st k))).
+  { intros k Hk. unfold rows_total, C. rewrite contents_lengths; auto. }
+  assert (EM : forall (X : Type) (x y : X), is_live st i = true ->
+             match conts (absS st) i with [] => x | _ => y end = match offs (getseq st i) with [] => x | _ => y end).
+  { intros X x y L. pose proof (is_live_lt _ _ L) as Hi. rewrite abs_conts by auto.
+    pose proof (conts_nil st i W Hi) as CN. destruct (C st i) eqn:EC.
+    - rewrite (proj1 CN eq_refl). reflexivity.
+    - destruct (offs (getseq st i)) eqn:EO; [|reflexivity]. exfalso. destruct CN as (_ & CN).
+      specialize (CN eq_refl). discriminate. }
+  rewrite abs_alive. destruct oj as [j|].
+  - rewrite abs_alive. unfold step. destruct (is_live st i && is_live st j) eqn:L; [|reflexivity].
+    apply andb_prop in L. destruct L as (L & Lj).
+    pose proof (is_live_lt _ _ L) as Hi. pose proof (is_live_lt _ _ Lj) as Hj.
+    rewrite (EM _ _ _ L). rewrite !abs_conts by auto.
+    destruct (wf_seq _ W i Hi) as (_ & Si & _). destruct (wf_seq _ W j Hj) as (_ & Sj & _).
+    rewrite (C_len st i W Hi), (C_len st j W Hj), !RT by auto. rewrite <- Si, <- Sj.
+    destruct (negb _ || negb _); [reflexivity|]. destruct (offs (getseq st i)); reflexivity.
+  - unfold step. rewrite andb_true_r. destruct (is_live st i) eqn:L; [|reflexivity].
+    rewrite (EM _ _ _ eq_refl). destruct (offs (getseq st i)); reflexivity.
+Qed.
+
 (* ---------------------------------------------------------------- the theorem *)
 Theorem simulation_all st o : wf st ->
   spec_rel (absS st) o (absS (fst (step st o))) (snd (step st o)).
@@ -1305,6 +1344,7 @@ Proof.
   - apply sim_drop; auto.
   - destruct inplace; [apply sim_op_seq_inplace|apply sim_op_seq_copy]; auto.
   - apply sim_append_bad; auto.
+  - apply sim_op_refused; auto.
   - apply sim_shrink; auto.
   - apply sim_concat1; auto.
   - apply sim_get_cols; auto.
